@@ -55,8 +55,27 @@ def is_class_kind(k: str) -> bool:
 def elem_kind(k: str) -> str:
     if k == "str":
         return "int"
+    if k.startswith("list3["):
+        return "triple[" + k[6:-1] + "]"
     assert k.startswith("list["), k
     return k[5:-1]
+
+
+_TRIPLES: dict = {}
+
+
+def triple_sort(k: str):
+    """z3 datatype of the elements of a `list3[K0,K1,K2]`: a flat Python list used as a sequence of
+    triples (ResolvedPos.path = [node, index, offset, node, index, offset, ...])"""
+    inner = k[k.index("[") + 1:-1]
+    if inner not in _TRIPLES:
+        ks = split_top(inner)
+        if len(ks) != 3:
+            raise KindError(f"list3 needs three component kinds: {k}")
+        dt = z3.Datatype("Triple_" + "_".join(ks))
+        dt.declare("mk3", ("c0", sort_of(ks[0])), ("c1", sort_of(ks[1])), ("c2", sort_of(ks[2])))
+        _TRIPLES[inner] = (dt.create(), ks)
+    return _TRIPLES[inner]
 
 
 def sort_of(k: str):
@@ -68,6 +87,8 @@ def sort_of(k: str):
         return IntSeq
     if k == "val":
         return Val
+    if k.startswith("list3["):
+        return z3.SeqSort(triple_sort(k)[0])
     if k.startswith("list["):
         return z3.SeqSort(sort_of(elem_kind(k)))
     if is_class_kind(k):
@@ -172,7 +193,7 @@ def fresh(kind: str, hint: str = "v") -> V:
         return VVal(z3.Const(n, Val))
     if kind == "func":
         return VFunc(hint)
-    if kind == "str" or kind.startswith("list["):
+    if kind == "str" or kind.startswith("list[") or kind.startswith("list3["):
         return VSeq(kind, z3.Const(n, sort_of(kind)))
     if kind.startswith("opt["):
         ik = kind[4:-1]
@@ -201,7 +222,7 @@ def coerce(v: V, kind: str) -> V:
         if isinstance(v, VOpt):
             return v
         return VOpt(ik, z3.BoolVal(False), coerce(v, ik))
-    if isinstance(v, VSeq) and (kind == "str" or kind.startswith("list[")):
+    if isinstance(v, VSeq) and (kind == "str" or kind.startswith("list[") or kind.startswith("list3[")):
         if v.t is None:  # empty display of unknown element kind
             return VSeq(kind, z3.Empty(sort_of(kind)), fresh=True)
         return v
